@@ -8,13 +8,14 @@
    Both return `xres state`: XOk s (stack, context values, input scopes and cursors, register,
    variables, printed text, printed flag, the two bookkeeping depths) | XErr e | XFuel, so an
    equation between them is "same stack, same text, same variables and register, same error,
-   same out-of-fuel".  `core_ok` (Model/Values.v) fixes what is quantified over: number
-   literals, the 36 core elements, variables and function definitions at top level (not inside
-   a def, where Python would create a local), if / for / while, the lambdas λ ƛ ' and the
-   shorthands ⁽ ‡ ≬, named functions with numeric parameters, list literals, the modifiers
-   v & ~ ß ƒ ɖ ₌ ₍.  NOT in the core (no statement is made): string / character / compressed
-   literals, the ghost variable and `_` names, X x (break / recurse), the sort lambda µ, named
-   and `*` function parameters, assignments inside a def, triadic modifiers. *)
+   same out-of-fuel".  `core_program` (Model/Values.v) fixes what is quantified over: number
+   literals, the 37 core elements, variables and function definitions at top level (not inside
+   a def, where Python would create a local), if / for / while, the lambdas λ ƛ ' µ and the
+   shorthands ⁽ ‡ ≬, named functions with numeric and named parameters, list literals, the
+   modifiers v & ~ ß ƒ ɖ ₌ ₍; a nested def does not read a named parameter of an enclosing
+   function (Python would use a closure cell).  NOT in the core (no statement is made): string
+   / character / compressed literals, the ghost variable and `_` names, X x (break / recurse),
+   `*` function parameters, assignments inside a def, triadic modifiers. *)
 From Coq Require Import List NArith ZArith Bool.
 From Vy Require Import Model.Base Model.Lexer Model.Parser Model.Transpile Model.Values Model.Machine Model.RefSem
   Proofs.C01Frames Proofs.C01Sim Proofs.C01Templates Proofs.C01Examples.
@@ -22,11 +23,12 @@ Import ListNotations.
 
 (* THE theorem (full statement, all fuel, all states, all flag configurations, every nesting) *)
 Theorem C01_compile_correct : forall cf fuel p s,
-  core_ok_list false p = true -> exec cf fuel false p s = eval cf fuel p s.
-Proof. exact compile_correct. Qed.
+  core_program p = true -> exec cf fuel false p s = eval cf fuel p s.
+Proof. exact compile_correct_program. Qed.
 Print Assumptions C01_compile_correct.
 
-(* the same for code standing inside a def: lambda and function bodies, list items, operands *)
+(* the equation itself needs only the part of the grammar the evaluators enforce themselves
+   (`core_ok`), at top level and inside a def: lambda and function bodies, list items, operands *)
 Theorem C01_compile_correct_in_def : forall cf fuel indef p s,
   core_ok_list indef p = true -> exec cf fuel indef p s = eval cf fuel p s.
 Proof. exact compile_correct_indef. Qed.
@@ -35,8 +37,8 @@ Print Assumptions C01_compile_correct_in_def.
 (* whole programs: start-up (flag H), ranges (flags M m), the run, the implicit output of the top
    of the stack with the flags j s W O o *)
 Theorem C01 : forall fl fuel inputs p,
-  core_ok_list false p = true -> run_machine fl fuel inputs p = run_ref fl fuel inputs p.
-Proof. exact program_correct. Qed.
+  core_program p = true -> run_machine fl fuel inputs p = run_ref fl fuel inputs p.
+Proof. exact program_correct_program. Qed.
 Print Assumptions C01.
 
 (* the reference semantics leaves the interpreter's context where it found it, for EVERY program
@@ -63,14 +65,14 @@ Print Assumptions C01_templates.
 (* non-vacuity: a lambda called in an if in a for in an if; a two-argument function, a variable, a
    for loop, a map lambda and the implicit output; implicit input with flag W *)
 Theorem C01_example_nested :
-  exists p s, parse_source ex_src1 = Ok p /\ core_ok_list false p = true
+  exists p s, parse_source ex_src1 = Ok p /\ core_program p = true
     /\ run_machine FlNone 12 [] p = XOk s /\ run_ref FlNone 12 [] p = XOk s
     /\ stk s = [] /\ out s = text [[49]; [50]; [54]; [56]]%N.
 Proof. exact example1. Qed.
 Print Assumptions C01_example_nested.
 
 Theorem C01_example_function :
-  exists p s, parse_source ex_src2 = Ok p /\ core_ok_list false p = true
+  exists p s, parse_source ex_src2 = Ok p /\ core_program p = true
     /\ run_machine FlNone 12 [] p = XOk s /\ run_ref FlNone 12 [] p = XOk s
     /\ stk s = [] /\ out s = text [[10216; 32; 54; 32; 124; 32; 50; 32; 124; 32; 51; 32; 10217]]%N.
 Proof. exact example2. Qed.
